@@ -13,6 +13,7 @@ Tie (B): differential correspondence, the model interpreters being evaluated by 
              (recovered from __context__) -> recast exception
   tree    -- scripted-failure expression trees through FormulaGrader (which child fails first, which clause recasts)
   numpy   -- handle_np_floating_errors on numpy's messages
+  expect  -- ItemGrader.__call__ with valid / invalid author `expect` values (inference happens outside the guarded region)
 Oracle on the implementation (independent of the model): exception family, class/message preservation with <br/>,
 generic message naming the submission, refusal of non-text before check is consulted, 10 s alarm, numpy error state,
 and a table of anticipated problems with the documented class and message.
@@ -94,6 +95,14 @@ Definition call_case (c : nat * bool * bool * option Z * pyval * raw * fin) : bo
   let check := fun _ : pyval => match r with RawExc mro msg => Raise (mkExc mro msg) | _ => Ret dummy end in
   let consulted := match r with RawNone => negb (shape_ok (mode_of m) inp) | _ => shape_ok (mode_of m) inp end in
   consulted && fin_agree (call G.exc_table G.guard G.ensure cfg check att inp) f.
+
+(* ItemGrader.__call__ with an `expect` value: (expect given, outcome of validating the inferred answers, input, raw, final) *)
+Definition expect_case (c : bool * option (list string * cstr) * pyval * raw * fin) : bool :=
+  let '(given, inf, inp, r, f) := c in
+  let infer := match inf with None => Ret tt | Some (mro, msg) => Raise (mkExc mro msg) end in
+  let cfg := mkCallCfg false ModeItem None true in
+  let check := fun _ : pyval => match r with RawExc mro msg => Raise (mkExc mro msg) | _ => Ret dummy end in
+  fin_agree (item_call G.exc_table G.guard G.ensure cfg infer given check None inp) f.
 
 (* ensure_text_inputs(student_input, allow_lists, allow_single) *)
 Definition ensure_case (c : bool * bool * pyval * fin) : bool :=
@@ -848,7 +857,13 @@ def coq_eval(res, tag, fn, terms, metas, case_type, kind, nshards):
     """evaluate `fn case = true` for all case terms inside Coq (model interpreters on the regenerated tables)"""
     hdr, terms = finish(terms)
     shard = max(40, (len(terms) + nshards - 1) // nshards)
-    n, failing, errors = core.eval_agreement(tag, HEADER + AGREE_DEFS + hdr, fn, terms, shard=shard, case_type=case_type)
+    for attempt in range(3):
+        n, failing, errors = core.eval_agreement(tag, HEADER + AGREE_DEFS + hdr, fn, terms, shard=shard, case_type=case_type)
+        if not errors:
+            break
+        # a case file that does not compile at all is usually a concurrent rebuild of the shared .vo files: try again
+        res.notes.append('%s: %d case file(s) did not evaluate on attempt %d: %s' % (tag, len(errors), attempt + 1, errors[0][1][-300:]))
+        time.sleep(5 + 10 * attempt)
     res.programs += n
     res.corr_errors += errors
     for i in failing[:12]:
@@ -1016,6 +1031,62 @@ def run_sites(ctx, res, sites):
     if metas:
         res.samples.append({'except_site': metas[len(metas) // 3]})
     coq_eval(res, 'c02_site', 'site_case', terms, metas, 'nat * cstr * (list string * cstr) * (list string * cstr)', 'except-clause', 2)
+
+
+def run_expect(ctx, res):
+    """answer inference from `expect` happens before the guarded region (outside the property's quantifier, which ranges over
+    student input): tie the model's item_call to ItemGrader.__call__, with the validation of the inferred answers as oracle"""
+    from mitxgraders import StringGrader, FormulaGrader, NumericalGrader, SingleListGrader
+    factories = [('String', lambda: StringGrader()), ('Formula', lambda: FormulaGrader()), ('Numerical', lambda: NumericalGrader()),
+                 ('SingleList', lambda: SingleListGrader(subgrader=StringGrader())),
+                 ('String/configured', lambda: StringGrader(answers='dog'))]
+    expects = [None, 'cat', '1+1', '1+', '', 5, ['a', 'b'], {'expect': 'cat'}, {'bad': 1}, True, 2.5]
+    inputs = ['cat', '2', '1/0', ['obj', 'int'], ['list', ['a']]]
+    pool_reset()
+    terms, metas = [], []
+    escaped = {}
+    for name, factory in factories:
+        for expect in expects:
+            for spec in inputs:
+                g, twin = factory(), factory()
+                given = expect is not None and not twin.config['answers']
+                inf = None
+                if given:
+                    def validate():
+                        a = twin.schema_answers(twin.infer_from_expect(expect))
+                        return twin.post_schema_ans_val(a)
+                    st, val = core.guarded(validate)
+                    if st == 'exc':
+                        inf = val
+                inp = build_object(spec)
+                raw = {'called': 0}
+                orig = g.check
+
+                def check(answers, student_input, **kw):
+                    raw['called'] += 1
+                    try:
+                        r = orig(answers, student_input, **kw)
+                        raw['status'] = 'ret'
+                        return r
+                    except BaseException as e:
+                        raw['status'], raw['exc'] = 'exc', e
+                        raise
+                g.check = check
+                st, val = core.guarded(g, expect, inp)
+                res.oracle_evals += 1
+                if st == 'timeout':
+                    continue
+                r = 'RawNone' if not raw['called'] else 'RawRet' if raw['status'] == 'ret' else \
+                    '(RawExc %s %s)' % (cnames(mro_names(raw['exc'])), ctext(str(raw['exc'])))
+                terms.append('(%s, %s, %s, %s, %s)' % (boollit(given), 'None' if inf is None else '(Some %s)' % exc_pair(inf),
+                                                       pyval_term(inp), r, fin_term(st, val)))
+                metas.append({'grader': name, 'expect': repr(expect), 'input': spec})
+                if st == 'exc':
+                    k = type(val).__name__
+                    escaped[k] = escaped.get(k, 0) + 1
+    res.distribution['expect_inference_cases'] = len(terms)
+    res.distribution['expect_inference_escaping_classes (outside the property)'] = escaped
+    coq_eval(res, 'c02_expect', 'expect_case', terms, metas, 'bool * option (list string * cstr) * pyval * raw * fin', 'expect', 2)
 
 
 def small_objects(max_len):
@@ -1344,6 +1415,7 @@ def run(ctx):
     t0 = time.time()
     run_sites(ctx, res, sites)
     run_ensure(ctx, res)
+    run_expect(ctx, res)
     phases['sites+ensure'] = round(time.time() - t0, 1)
     t0 = time.time()
     run_brackets(ctx, res, rng)
